@@ -55,12 +55,12 @@ def sCallerBody (api : Api) (cur : Name) (d : DataType) (oc : Option Name) : Lis
 
 def sSubs (cur : Name) (d : DataType) : List Stmt :=
   if d.hasSubtypes then
-    [Stmt.assign d.name (some "_tag_to_subtype_") none
-        (here d.name :: d.subtypes.flatMap fun (sns, sn) => tyRefs cur (.user sns sn)),
-     Stmt.assign d.name (some "_pytype_to_tag_and_subtype_") none
-        (here d.name :: (d.subtypes.map fun (_, sn) => here (fmtClass sn))
+    [Stmt.assign (fmtClass d.name) (some "_tag_to_subtype_") none
+        (here (fmtClass d.name) :: d.subtypes.flatMap fun (sns, sn) => tyRefs cur (.user sns sn)),
+     Stmt.assign (fmtClass d.name) (some "_pytype_to_tag_and_subtype_") none
+        (here (fmtClass d.name) :: (d.subtypes.map fun (_, sn) => here (fmtClass sn))
           ++ d.subtypes.flatMap fun (sns, sn) => tyRefs cur (.user sns sn)),
-     Stmt.assign d.name (some "_is_catch_all_") none [here d.name]]
+     Stmt.assign (fmtClass d.name) (some "_is_catch_all_") none [here (fmtClass d.name)]]
   else []
 
 theorem structRefl_eq (api : Api) (cur : Name) (d : DataType) :
